@@ -8,6 +8,7 @@ from spverif.ref import cfdp as R
 from . import _cfdp as C
 
 SCRIBBLE = True
+THOROUGH_SCALE = 12
 ID = "C12"
 LEVEL = "exploration"
 SHARDS = {"quick": 1, "thorough": 8}
